@@ -836,7 +836,7 @@ impl TreeProp {
                     return Err(viol(
                         "C15",
                         format!("C15/edge_not_validated/{}/{}", cx.pk, if reparented { "rewired" } else { "new" }),
-                        format!("iteration {}: edge {p}->{j} (length {d}) has an unvalidated stretch of {gap} at {at}; resolution {}", i + 1, g.lvs()),
+                        format!("iteration {}: edge {p}->{j} (length {d}) has an unvalidated stretch of {gap} at {at}; resolution {}", i + 1, g.lvs_ref()),
                     ));
                 }
             }
